@@ -5,6 +5,7 @@ import (
 
 	"github.com/robfig/soy/data"
 	"github.com/robfig/soy/errortypes"
+	"github.com/robfig/soy/soymsg"
 )
 
 func has19(s, sub string) bool {
@@ -82,4 +83,50 @@ func H_writeerrpos(L int) {
 		want++
 	}
 	verifAssert(fp.Line() == want, "C19: render error (failed write) does not point at the line of the command being executed")
+}
+
+// c19Catalogue translates the message "Hello {NAME}" (whatever its id is in this build).
+type c19Catalogue struct{ id uint64 }
+
+func (b c19Catalogue) Locale() string { return "xx" }
+func (b c19Catalogue) Message(id uint64) *soymsg.Message {
+	if id != b.id {
+		return nil
+	}
+	return &soymsg.Message{ID: id, Parts: []soymsg.Part{soymsg.RawTextPart{Text: "Salut "}, soymsg.PlaceholderPart{Name: "NAME"}}}
+}
+func (b c19Catalogue) PluralCase(n int) int { return 0 }
+
+// H_rendererrMsg: the failing command is a print inside a {msg} that is rendered through a
+// translating catalogue (tr) or from the source; the same message occurs, and renders fine, in a
+// called template on every other line (before and after). The error names the entry file and the
+// line of the failing {msg}.
+func H_rendererrMsg(L int, tr bool) {
+	k := verifChoose(L)
+	src := "{namespace a}\n/** @param? name */\n{template .t}\n"
+	for i := 0; i < L; i++ {
+		if i == k {
+			src += "  {msg desc=\"d\"}Hello {$name}{/msg}\n"
+		} else {
+			src += "  {call b.ok}{param name: 'v' /}{/call}\n"
+		}
+	}
+	src += "{/template}\n"
+	other := "{namespace b}\n\n\n\n\n\n\n\n\n\n\n\n\n\n\n\n\n/** @param name */\n{template .ok}\n{msg desc=\"d\"}Hello {$name}{/msg}\n{/template}\n"
+	tofu, cerr := verifCompileNoCheck(src, other)
+	verifAssert(cerr == nil, "harness: bundle does not compile")
+	r := tofu.NewRenderer("a.t")
+	if tr {
+		id, _ := c12MsgID(tofu)
+		r = r.WithMessages(c19Catalogue{id})
+	}
+	var out []byte
+	err := r.Execute(&sliceWriter{&out}, data.Map{})
+	verifObserve("out", string(out))
+	verifAssert(err != nil, "harness: render did not fail")
+	fp := errortypes.ToErrFilePos(err)
+	verifAssert(fp != nil, "C19: render error carries no file position")
+	verifObserveInt("line", fp.Line())
+	verifAssert(fp.File() == "f0.soy", "C19: render error does not name the file of the entry template")
+	verifAssert(fp.Line() == 4+k, "C19: render error does not point at the line of the outermost failing command")
 }
